@@ -82,11 +82,16 @@ func (h *EventHasher) Do(data ...[]byte) hashing.Digest {
 		if d, ok := eventDigests[k]; ok {
 			return d
 		}
-		b1 := byte(0)
+		b1, b2 := byte(0), byte(0)
 		if len(data[0]) > 1 {
 			b1 = data[0][1]
 		}
-		d := PrefixedDigest("event-"+fmtBytes(data[0]), int(h.inner.Len()/8), data[0][0], b1, 0)
+		if len(data[0]) > 2 {
+			// a third event byte becomes the third digest byte: events that differ only there
+			// share 16..23 leading digest bits (the same stored tiles of the hyper cache)
+			b2 = data[0][2]
+		}
+		d := PrefixedDigest("event-"+fmtBytes(data[0]), int(h.inner.Len()/8), data[0][0], b1, b2)
 		eventDigests[k] = d
 		return d
 	}
